@@ -51,22 +51,39 @@ let snapshot who s np =
 let stepcap = 6000
 
 (* lock-step run; returns the printed line *)
+type tok = One of int | Until of int * int
+let sched_tok w =
+  if SS.get w 0 = 'u' then
+    (match SS.split_on_char '.' (SS.sub w 1 (SS.length w - 1)) with
+     | [p; n] -> Until (int_of_string p, int_of_string n)
+     | _ -> failwith "bad schedule token")
+  else One (int_of_string w)
+
 let run_case size nth oprog tprogs sched =
   let np = nth + 1 in
   let s = ref (init_state (zi size) (ni nth)) in
   let pg = ref { oprog; tprogs } in
   let out = ref [] and steps = ref 0 and ab = ref false in
+  let ops_done = Array.make np 0 in
   let do_step p =
     if not !ab then begin
-      (if p >= 0 && p < np then
+      (if p >= 0 && p < np then begin
+         let is_ret = (match sched_event !s !pg (ni p) with Some (Ret, _) -> true | _ -> false) in
          match sched_step !s !pg (ni p) with
-         | Some (s', pg') -> s := s'; pg := pg'
-         | None -> ());
+         | Some (s', pg') -> s := s'; pg := pg'; if is_ret then ops_done.(p) <- ops_done.(p) + 1
+         | None -> ()
+       end);
       if !s.aborted then (ab := true; out := "ABORT" :: !out)
       else out := snapshot p !s np :: !out;
       incr steps
     end in
-  SL.iter do_step sched;
+  SL.iter (function
+      | One p -> do_step p
+      | Until (p, n) ->
+         let guard = ref 0 in
+         while p >= 0 && p < np && not !ab && not (finished !s !pg (ni p)) && ops_done.(p) < n && !guard < 400 do
+           do_step p; incr guard
+         done) sched;
   let fin () = SL.for_all (fun p -> finished !s !pg (ni p)) (SL.init np (fun p -> p)) in
   while not !ab && not (fin ()) && !steps < stepcap do
     for p = 0 to np - 1 do
@@ -78,15 +95,24 @@ let run_case size nth oprog tprogs sched =
 let parse_progs flds nth =
   let o = SL.map oop_of (words (SL.nth flds 1)) in
   let ts = SL.init nth (fun i -> SL.map top_of (words (SL.nth flds (2 + i)))) in
-  let sched = SL.map int_of_string (words (SL.nth flds (2 + nth))) in
+  let sched = SL.map sched_tok (words (SL.nth flds (2 + nth))) in
   (o, ts, sched)
 
 (* all maximal schedules after a prefix: depth-first over the participants whose step is enabled *)
 let enumerate size nth oprog tprogs prefix limit =
   let np = nth + 1 in
   let s0 = ref (init_state (zi size) (ni nth)) and pg0 = ref { oprog; tprogs } in
-  SL.iter (fun p -> match sched_step !s0 !pg0 (ni p) with
-                    | Some (s', pg') -> s0 := s'; pg0 := pg' | None -> ()) prefix;
+  let ops_done = Array.make np 0 in
+  let one p =
+    let is_ret = (match sched_event !s0 !pg0 (ni p) with Some (Ret, _) -> true | _ -> false) in
+    match sched_step !s0 !pg0 (ni p) with
+    | Some (s', pg') -> s0 := s'; pg0 := pg'; if is_ret then ops_done.(p) <- ops_done.(p) + 1
+    | None -> () in
+  SL.iter (function
+      | One p -> one p
+      | Until (p, n) ->
+         let guard = ref 0 in
+         while not (finished !s0 !pg0 (ni p)) && ops_done.(p) < n && !guard < 400 do one p; incr guard done) prefix;
   let count = ref 0 in
   let rec go s pg acc depth =
     if !count < limit then begin
@@ -105,6 +131,29 @@ let enumerate size nth oprog tprogs prefix limit =
     end in
   go !s0 !pg0 [] 0;
   print_endline (if !count >= limit then "TRUNCATED" else "END")
+
+(* ---------------- sequential mode (one operation at a time, to completion) ---------------- *)
+(* seq <size> | top base lock seq wptr | slot tags | ops      prints  op=result:snapshot|...  *)
+let seq_case size hdr slots ops =
+  let z k = zi (SL.nth hdr k) in
+  let m = { top = z 0; base = z 1; lck = z 2; ptr = SL.map zi slots; wseq = z 3; wptr = z 4 } in
+  let s = ref { (init_state (zi size) (ni 1)) with mm = m } in
+  let snap () =
+    let m = !s.mm in
+    Printf.sprintf "%d,%d,%d,%d,%d:%s" (iz m.top) (iz m.base) (iz m.lck) (iz m.wseq) (iz m.wptr)
+      (SS.concat "," (SL.map (fun z -> string_of_int (iz z)) m.ptr)) in
+  let exec a = match step !s a with Some s' -> s := s'; true | None -> false in
+  let run_op w =
+    let p, call = (match SS.get w 0 with
+      | 'P' | 'O' | 'U' -> 0, CallO (oop_of w)
+      | _ -> 1, CallT (top_of w)) in
+    ignore (exec (ni p, call));
+    let n = ref 0 in
+    while !n < 100 && exec (ni p, Tick) do incr n done;
+    let r = (match result !s (ni p) with Some r -> string_of_int (iz r) | None -> if !s.aborted then "ABORT" else "?") in
+    ignore (exec (ni p, Ret));
+    Printf.sprintf "%s=%s:%s" w r (snap ()) in
+  SS.concat "|" (SL.map run_op ops)
 
 (* ---------------- TSO ---------------- *)
 let fclass_of = function 'F' -> Full | 'C' -> CompilerOnly | 'N' -> Nothing | c -> failwith "bad fence class"
@@ -183,6 +232,10 @@ let () =
         let (o, ts, prefix) = parse_progs flds nth in
         let limit = match rest with l :: _ -> int_of_string l | [] -> 200000 in
         enumerate (int_of_string sz) nth o ts prefix limit
+     | ["seq"; sz] ->
+        let hdr = SL.map int_of_string (words (SL.nth flds 1)) in
+        let slots = SL.map int_of_string (words (SL.nth flds 2)) in
+        print_endline (seq_case (int_of_string sz) hdr slots (words (SL.nth flds 3)))
      | ["tsorun"; sz; nth; tb] ->
         let nth = int_of_string nth in
         let o = SL.map oop_of (words (SL.nth flds 1)) in
